@@ -2,7 +2,7 @@
 
 use super::result::CollectionType;
 use super::result::NativeType;
-use super::result::{ColumnType, UserDefinedType};
+use super::result::{ColumnType, MAX_TYPE_NESTING_DEPTH, UserDefinedType};
 use crate::frame::frame_errors::CustomTypeParseError;
 use crate::utils::parse::ParseResult;
 use crate::utils::parse::ParserState;
@@ -33,6 +33,9 @@ pub(crate) struct CustomTypeParser<'result> {
     /// When we encounter a `FrozenType(...)`, this field is set to true for the duration
     /// of parsing the inner type, and then set back to false.
     frozen_context: bool,
+    /// Current nesting depth of the type being parsed. Parsing is recursive,
+    /// so the depth is bounded to keep a hostile type name from overflowing the stack.
+    depth: usize,
 }
 
 impl<'result> CustomTypeParser<'result> {
@@ -40,6 +43,7 @@ impl<'result> CustomTypeParser<'result> {
         Self {
             parser: ParserState::new(input),
             frozen_context: false,
+            depth: 0,
         }
     }
 
@@ -135,9 +139,16 @@ impl<'result> CustomTypeParser<'result> {
         self.accept_in_place("(")
             .map_err(|_| CustomTypeParseError::UnexpectedCharacter(self.get_first_char(), '('))?;
 
-        Ok(Either::Right(std::iter::from_fn(|| {
+        // Once a parameter fails to parse, the parser may be stuck at the offending input
+        // (an error does not necessarily consume it), so stop iterating after the first error.
+        let mut failed = false;
+        Ok(Either::Right(std::iter::from_fn(move || {
+            if failed {
+                return None;
+            }
             self.skip_blank_and_comma();
             if self.parser.is_at_eof() {
+                failed = true;
                 return Some(Err(CustomTypeParseError::UnexpectedEndOfInput));
             }
             let result = self.parser.accept(")");
@@ -146,7 +157,11 @@ impl<'result> CustomTypeParser<'result> {
                     self.parser = parser;
                     None
                 }
-                Err(_) => Some(self.do_parse()),
+                Err(_) => {
+                    let parsed = self.do_parse();
+                    failed = parsed.is_err();
+                    Some(parsed)
+                }
             }
         })))
     }
@@ -245,23 +260,24 @@ impl<'result> CustomTypeParser<'result> {
     fn get_n_type_parameters<const N: usize>(
         &mut self,
     ) -> Result<[Result<ColumnType<'result>, CustomTypeParseError>; N], CustomTypeParseError> {
-        let mut backup = Self {
-            parser: self.parser,
-            frozen_context: self.frozen_context,
-        };
+        // The parameter list is parsed exactly once. Re-parsing it in order to count
+        // the parameters on arity mismatch made the parsing time exponential in the nesting depth.
+        let mut parameters: Vec<Result<ColumnType<'result>, CustomTypeParseError>> =
+            self.get_type_parameters()?.collect();
 
-        // FIXME: Rewrite using std::iter::FromIterator::collect_array after it is stabilized.
-        // See rust-lang/rust#149266
-        itertools::Itertools::collect_array::<N>(self.get_type_parameters()?).ok_or_else(|| {
-            // unwrap(): get_type_parameters() already worked above, so it will work here as well.
+        // A parameter that failed to parse ends the list, so it is always the last one.
+        // Report it rather than the (meaningless) parameter count.
+        if parameters.last().is_some_and(Result::is_err) && parameters.len() != N {
+            return Err(parameters.pop().unwrap().unwrap_err());
+        }
 
-            let actual_parameter_count = backup.get_type_parameters().unwrap().count();
-
-            CustomTypeParseError::InvalidParameterCount {
-                actual: actual_parameter_count,
+        let actual = parameters.len();
+        parameters
+            .try_into()
+            .map_err(|_| CustomTypeParseError::InvalidParameterCount {
+                actual,
                 expected: N,
-            }
-        })
+            })
     }
 
     fn get_complex_abstract_type(
@@ -355,6 +371,18 @@ impl<'result> CustomTypeParser<'result> {
     }
 
     fn do_parse(&mut self) -> Result<ColumnType<'result>, CustomTypeParseError> {
+        if self.depth > MAX_TYPE_NESTING_DEPTH {
+            return Err(CustomTypeParseError::TypeNestingTooDeep(
+                MAX_TYPE_NESTING_DEPTH,
+            ));
+        }
+        self.depth += 1;
+        let result = self.do_parse_nested();
+        self.depth -= 1;
+        result
+    }
+
+    fn do_parse_nested(&mut self) -> Result<ColumnType<'result>, CustomTypeParseError> {
         self.skip_blank();
 
         let mut name = self.read_next_identifier();
